@@ -8,16 +8,16 @@ pub mod sym { include!("../../common/sym.rs"); }
 pub mod randf { include!("../../common/randf.rs"); }
 
 macro_rules! real_mod {
-    ($name:ident, $file:literal) => { pub mod $name { include!(concat!("/repo/src/", $file)); } };
+    ($name:ident, $file:literal) => { pub mod $name { include!(concat!(env!("FLOUNDER_SRC"), "/", $file)); } };
 }
 real_mod!(bitboard, "bitboard.rs");
 real_mod!(moves, "moves.rs");
 real_mod!(pieces, "pieces.rs");
 real_mod!(square, "square.rs");
-pub mod lookup { include!("/repo/src/lookup.rs"); }
+pub mod lookup { include!(concat!(env!("FLOUNDER_SRC"), "/lookup.rs")); }
 pub mod magic {
     use crate::randf as rand;
-    include!("/repo/src/magic.rs");
+    include!(concat!(env!("FLOUNDER_SRC"), "/magic.rs"));
     pub mod vh {
         use super::*;
         pub fn build(rm: [u64; 64], bm: [u64; 64], rg: [u64; 64], bg: [u64; 64], ra: Vec<Vec<u64>>, ba: Vec<Vec<u64>>) -> Magic {
